@@ -447,7 +447,7 @@ def rule_pub_fields(text, dropped):
 def rule_range_map_collect(text, dropped):
     """`let X = (0..N).map(|i| EXPR).collect_vec();`  =>  an explicit counting loop pushing EXPR (closure body verbatim).
     Soft rule: when the statement has another shape the text is left alone and Verus gets to see it as it is."""
-    rx = re.compile(r'let (\w+) = \(0\.\.(\w+)\)\s*\.map\(\|(\w+)\| ([^;]*?)\)\s*\.collect_vec\(\);', re.S)
+    rx = re.compile(r'let (\w+) = \(0\.\.([\w.]+)\)\s*\.map\(\|(\w+)\| ([^;]*?)\)\s*\.collect_vec\(\);', re.S)
     def rep(m):
         x, n, i, expr = m.group(1), m.group(2), m.group(3), m.group(4)
         new = (f'let mut {x} = Vec::new(); let mut verif_i: usize = 0; while verif_i < {n} {{ let {i} = verif_i; '
@@ -784,6 +784,7 @@ def generate(unit_dir, vacuity=False, mutate=None):
                 elif kind == 'prologue':
                     prologue_lines = (lines, tl)
                 elif kind == 'loop':
+                    optional = arg.endswith('optional')
                     am = re.match(r'(\d+)(?:\s+iter=(\w+))?', arg)
                     if not am:
                         raise SliceError(f'bad //@loop {arg}')
@@ -791,6 +792,9 @@ def generate(unit_dir, vacuity=False, mutate=None):
                         loops = find_loops(text)
                     n = int(am.group(1))
                     if n < 1 or n > len(loops):
+                        if optional:
+                            lost_anchors.append(f'{nm}: loop {n} (optional) not present')
+                            continue
                         raise SliceError(f'{nm}: loop {n} not found ({len(loops)} loops)')
                     kw_off, bo_off = loops[n - 1]
                     inserts.append((bo_off, lines, tl))
